@@ -90,6 +90,12 @@ def run(ctx):
             for cheb in (True, False):
                 cases.append({"fn": "gen", "name": "invert", "args": G.enc_args({"kappa": kappa, "epsilon": eps}), "ensure_bounded": rng.random() < 0.5,
                               "return_scale": rng.random() < 0.5, "chebyshev_basis": cheb, "timeout": 300, "expect": "ok"})
+        # rect and 1/x*rect at the upper end of the epsilon range (the steepness is sqrt(log(2/(pi eps^2))): real up to eps = 0.798)
+        for name in ("rect", "invrect"):
+            for eps_ in (0.5, 0.7, 0.79):
+                cheb = rng.random() < 0.5
+                cases.append({"fn": "gen", "name": name, "args": G.enc_args({"degree": 6 if name == "invrect" else 8, "delta": 2.0, "kappa": 3, "epsilon": eps_}),
+                              "ensure_bounded": rng.random() < 0.5, "return_scale": rng.random() < 0.5, "chebyshev_basis": cheb, "timeout": 300, "expect": "ok"})
         # 1/x with b = int(kappa^2 log(kappa/eps)) beyond the range the binomial weights can be formed in (b >= 512): the generator may refuse,
         # but what it returns has to be finite and odd
         for name, a in (("invert", {"kappa": 12.0, "epsilon": 0.1}), ("invert", {"kappa": 14.0, "epsilon": 0.05}),
